@@ -67,24 +67,33 @@ type simEv struct {
 }
 
 type simWatch struct {
-	ch   chan clientv3.WatchResponse
-	next int64 // first revision not yet sent to this watch
-	dead bool
+	ch    chan clientv3.WatchResponse
+	next  int64 // first revision not yet sent to this watch
+	dead  bool
+	key   string // watched key ("svc/" with prefix, or the exact key)
+	exact bool
 }
 
 type etcdSim struct {
 	rev     int64
 	kvs     map[string]string
+	owner   map[string]string // value -> key of its most recent registration (exclusive reference)
 	log     []simEv
 	compact int64 // revisions below it are compacted away
 	watches []*simWatch
 	stalled bool
 	nGet    int
 	nWatch  int
+	// honorCtx (scenarios with leavers): a watch whose context is cancelled is closed by the client
+	// some time after the cancellation, as clientv3 documents ("if the context is canceled, the
+	// returned WatchChan is closed"): a daemon thread per watch waits for ctx.Done, marks the watch
+	// dead (nothing is sent to it any more) and closes its channel. What was sent before stays readable.
+	honorCtx bool
+	mu       vsched.Mutex // honorCtx: orders "is the watch dead? if not, send" against "mark dead, close"
 }
 
 func newSim(init map[string]string) *etcdSim {
-	s := &etcdSim{rev: 1, kvs: map[string]string{}}
+	s := &etcdSim{rev: 1, kvs: map[string]string{}, owner: map[string]string{}}
 	ks := make([]string, 0, len(init))
 	for k := range init {
 		ks = append(ks, k)
@@ -93,6 +102,7 @@ func newSim(init map[string]string) *etcdSim {
 	for _, k := range ks {
 		s.rev++
 		s.kvs[k] = init[k]
+		s.owner[init[k]] = k
 		s.log = append(s.log, simEv{rev: s.rev, key: k, val: init[k]})
 	}
 	return s
@@ -147,15 +157,16 @@ func (e simEv) event() *clientv3.Event {
 // buffered channel filled here with the backlog, atomically with the registration of the watch;
 // the scheduler adopts it (buffer included) at the first modelled operation on it. A start
 // revision that has been compacted away yields etcd's cancel response and a closed channel.
-func (s *etcdSim) Watch(_ context.Context, key string, opts ...clientv3.OpOption) clientv3.WatchChan {
+func (s *etcdSim) Watch(ctx context.Context, key string, opts ...clientv3.OpOption) clientv3.WatchChan {
 	s.nWatch++
-	start := clientv3.OpGet(key, opts...).Rev()
+	op := clientv3.OpGet(key, opts...)
+	start := op.Rev()
 	if start == 0 {
 		start = s.rev + 1
 	}
 	vsched.Log("WATCH from %d at %d", start, s.rev)
 	ch := make(chan clientv3.WatchResponse, 64)
-	w := &simWatch{ch: ch, next: start}
+	w := &simWatch{ch: ch, next: start, key: key, exact: len(op.RangeBytes()) == 0}
 	if start < s.compact {
 		ch <- clientv3.WatchResponse{Canceled: true, CompactRevision: s.compact}
 		close(ch)
@@ -164,24 +175,47 @@ func (s *etcdSim) Watch(_ context.Context, key string, opts ...clientv3.OpOption
 	s.watches = append(s.watches, w)
 	if !s.stalled {
 		for _, e := range s.log {
-			if e.rev >= w.next {
+			if e.rev >= w.next && w.covers(e.key) {
 				ch <- clientv3.WatchResponse{Events: []*clientv3.Event{e.event()}}
 			}
 		}
 		w.next = s.rev + 1
 	}
+	if s.honorCtx && ctx.Done() != nil {
+		done := ctx.Done()
+		vsched.GoNamed("etcd.watchctx", true, func() {
+			vsched.Recv(done)
+			s.mu.Lock()
+			if !w.dead {
+				w.dead = true
+				vsched.Close(w.ch)
+			}
+			s.mu.Unlock()
+		})
+	}
 	return ch
+}
+
+func (w *simWatch) covers(k string) bool {
+	if w.exact {
+		return k == w.key
+	}
+	return strings.HasPrefix(k, w.key)
 }
 
 // deliver sends everything the watch has not seen yet as one response (called by the etcd
 // thread only). A watch whose next revision has been compacted is cancelled as etcd does.
 func (s *etcdSim) deliver(w *simWatch) {
+	if s.honorCtx {
+		s.mu.Lock()
+		defer s.mu.Unlock()
+	}
 	if w.dead || w.next > s.rev {
 		return
 	}
 	var evs []*clientv3.Event
 	for _, e := range s.log {
-		if e.rev >= w.next {
+		if e.rev >= w.next && w.covers(e.key) {
 			evs = append(evs, e.event())
 		}
 	}
@@ -195,6 +229,17 @@ func (s *etcdSim) deliver(w *simWatch) {
 	if len(evs) > 0 {
 		vsched.Send(w.ch, clientv3.WatchResponse{Events: evs})
 	}
+}
+
+// exclusiveValues: a value counts iff the key that registered it most recently still holds it.
+func (s *etcdSim) exclusiveValues() []string {
+	m := map[string]bool{}
+	for v, k := range s.owner {
+		if cur, ok := s.kvs[k]; ok && cur == v {
+			m[v] = true
+		}
+	}
+	return setOf(m)
 }
 
 func (s *etcdSim) deliverAll() {
@@ -218,6 +263,7 @@ func (s *etcdSim) apply(o Op, spawnReload func()) {
 	case "put":
 		s.rev++
 		s.kvs[o.Key] = o.Val
+		s.owner[o.Val] = o.Key
 		s.log = append(s.log, simEv{rev: s.rev, key: o.Key, val: o.Val})
 		vsched.Log("CHG %d %s", s.rev, setString(s.values()))
 		if !s.stalled {
@@ -294,15 +340,95 @@ type e2eScenario struct {
 	Client string // "" | "build" | "sub"
 	Etcd   []Op
 	PCap   int // > 0: preemption bound of this scenario is min(tier bound, PCap)
+	// leaver / option families (zero values = the older families above):
+	PreList  []string   // overrides Pre: several clients established one after the other before the threads start
+	Acts     [][]string // overrides Client: one client thread per entry, each a sequence of actions (see e2eAct)
+	HonorCtx bool       // the simulated etcd closes a watch whose context was cancelled (see etcdSim.honorCtx)
+}
+
+// Client kinds: "build" (real discovBuilder.Build -> resolver), "sub" (NewSubscriber + reading
+// listener), "xsub" (the same with discov.Exclusive()), "esub" (WithExactMatch() on the key e2eExactKey).
+// Actions of a client thread: a kind (join), "close:<name>" (Subscriber.Close / resolver.Close of a
+// client established before the threads started or joined earlier by the same thread), and
+// "put:<key>=<val>" / "del:<key>" (a registry event issued by this thread: sequential histories).
+//
+// Names are static (independent of the interleaving): the i-th pre-established client is
+// <letter>i, the joins are numbered on from max(1, len(pre)) in (thread, action) order; letter r
+// for resolvers, s for subscribers.
+const e2eExactKey = "svc/k1"
+
+func kindLetter(kind string) string {
+	if kind == "build" {
+		return "r"
+	}
+	return "s"
+}
+
+func isKind(a string) bool { return a == "build" || a == "sub" || a == "xsub" || a == "esub" }
+
+type e2ePlan struct {
+	pre      []string   // kinds
+	preNames []string
+	acts     [][]string
+	actNames [][]string // name created by a join action ("" otherwise)
+	kindOf   map[string]string
+	closed   map[string]bool // names some action closes
+	joinedAfterClose map[string]bool // joins that follow a close in the same thread (re-subscription)
+	order    []string        // all names, creation order
+}
+
+func (sc e2eScenario) plan() e2ePlan {
+	p := e2ePlan{kindOf: map[string]string{}, closed: map[string]bool{}, joinedAfterClose: map[string]bool{}}
+	p.pre = sc.PreList
+	if p.pre == nil && sc.Pre != "" {
+		p.pre = []string{sc.Pre}
+	}
+	for i, k := range p.pre {
+		n := fmt.Sprintf("%s%d", kindLetter(k), i)
+		p.preNames = append(p.preNames, n)
+		p.kindOf[n] = k
+		p.order = append(p.order, n)
+	}
+	p.acts = sc.Acts
+	if p.acts == nil && sc.Client != "" {
+		p.acts = [][]string{{sc.Client}}
+	}
+	next := len(p.pre)
+	if next < 1 {
+		next = 1
+	}
+	for _, seq := range p.acts {
+		names := make([]string, len(seq))
+		closedHere := false
+		for i, a := range seq {
+			switch {
+			case isKind(a):
+				n := fmt.Sprintf("%s%d", kindLetter(a), next)
+				next++
+				names[i] = n
+				p.kindOf[n] = a
+				p.order = append(p.order, n)
+				if closedHere {
+					p.joinedAfterClose[n] = true
+				}
+			case strings.HasPrefix(a, "close:"):
+				p.closed[strings.TrimPrefix(a, "close:")] = true
+				closedHere = true
+			}
+		}
+		p.actNames = append(p.actNames, names)
+	}
+	return p
 }
 
 func (sc e2eScenario) body() func() {
+	pl := sc.plan()
 	return func() {
 		discov.VResetGlobal()
 		sim := newSim(sc.Init)
+		sim.honorCtx = sc.HonorCtx
 		discov.VInjectClient(e2eEndpoints, sim)
 		hosts := strings.Join(e2eEndpoints, ",")
-		var resolvers []string
 		resByName := map[string]resolver.Resolver{}
 		subByName := map[string]*discov.Subscriber{}
 
@@ -314,12 +440,20 @@ func (sc e2eScenario) body() func() {
 				return
 			}
 			resByName[name] = res
-			resolvers = append(resolvers, name)
 			vsched.Log("RDY %s", name)
 		}
-		subscribe := func(name string) {
+		subscribe := func(name, kind string) {
 			vsched.DaemonChildren(true)
-			sub, err := discov.NewSubscriber(append([]string(nil), e2eEndpoints...), e2eKey)
+			key := e2eKey
+			var opts []discov.SubOption
+			switch kind {
+			case "xsub":
+				opts = append(opts, discov.Exclusive())
+			case "esub":
+				key = e2eExactKey
+				opts = append(opts, discov.WithExactMatch())
+			}
+			sub, err := discov.NewSubscriber(append([]string(nil), e2eEndpoints...), key, opts...)
 			if err != nil {
 				vsched.Log("ERR %s %v", name, err)
 				return
@@ -334,26 +468,67 @@ func (sc e2eScenario) body() func() {
 			read()
 			vsched.Log("RDY %s", name)
 		}
+		join := func(kind, name string) {
+			if kind == "build" {
+				build(name)
+			} else {
+				subscribe(name, kind)
+			}
+		}
+		var wg vsched.WaitGroup
+		spawnReload := func() {
+			wg.Add(1)
+			vsched.GoNamed("reload", false, func() {
+				defer wg.Done()
+				vsched.DaemonChildren(true)
+				discov.VReloadGlobal(e2eEndpoints, sim)
+			})
+		}
+		act := func(a, name string) {
+			switch {
+			case isKind(a):
+				join(a, name)
+			case strings.HasPrefix(a, "close:"):
+				n := strings.TrimPrefix(a, "close:")
+				if r, ok := resByName[n]; ok {
+					r.Close()
+				} else if s, ok := subByName[n]; ok {
+					s.Close()
+				} else {
+					vsched.Log("ERR close of unknown client %s", n)
+					return
+				}
+				vsched.Log("CLOSED %s", n)
+			case strings.HasPrefix(a, "put:"):
+				kv := strings.SplitN(strings.TrimPrefix(a, "put:"), "=", 2)
+				sim.apply(Op{K: "put", Key: kv[0], Val: kv[1]}, spawnReload)
+			case strings.HasPrefix(a, "del:"):
+				sim.apply(Op{K: "del", Key: strings.TrimPrefix(a, "del:")}, spawnReload)
+			case a == "quiesce":
+				// only meaningful in a single-thread history: everything the watch goroutines can do is done
+				vsched.Quiesce()
+			default:
+				vsched.Log("ERR unknown action %s", a)
+			}
+		}
 
-		switch sc.Pre {
-		case "build":
-			build("r0")
-		case "sub":
-			subscribe("s0")
+		for i, kind := range pl.pre {
+			join(kind, pl.preNames[i])
 		}
 		vsched.Quiesce()
 		vsched.Log("START")
 
-		var wg vsched.WaitGroup
-		if sc.Client != "" {
+		for ti, seq := range pl.acts {
+			ti, seq := ti, seq
+			tn := "client"
+			if ti > 0 {
+				tn = fmt.Sprintf("client%d", ti+1)
+			}
 			wg.Add(1)
-			vsched.GoNamed("client", false, func() {
+			vsched.GoNamed(tn, false, func() {
 				defer wg.Done()
-				switch sc.Client {
-				case "build":
-					build("r1")
-				case "sub":
-					subscribe("s1")
+				for ai, a := range seq {
+					act(a, pl.actNames[ti][ai])
 				}
 			})
 		}
@@ -362,14 +537,7 @@ func (sc e2eScenario) body() func() {
 			vsched.GoNamed("etcd", false, func() {
 				defer wg.Done()
 				for _, o := range sc.Etcd {
-					sim.apply(o, func() {
-						wg.Add(1)
-						vsched.GoNamed("reload", false, func() {
-							defer wg.Done()
-							vsched.DaemonChildren(true)
-							discov.VReloadGlobal(e2eEndpoints, sim)
-						})
-					})
+					sim.apply(o, spawnReload)
 				}
 			})
 		}
@@ -378,6 +546,15 @@ func (sc e2eScenario) body() func() {
 
 		vsched.Log("FIN etcd {%s} %s", mapString(sim.kvs), setString(sim.values()))
 		vsched.Log("FIN reg {%s}", discov.VGlobalValues(e2eEndpoints, e2eKey))
+		if len(sc.PreList) > 0 || len(sc.Acts) > 0 {
+			exact := map[string]string{}
+			if v, ok := sim.kvs[e2eExactKey]; ok {
+				exact[e2eExactKey] = v
+			}
+			vsched.Log("FIN exact {%s} %s {%s}", mapString(exact), setString(valuesOf(exact)), discov.VGlobalValuesOf(e2eEndpoints, e2eExactKey, true))
+			vsched.Log("FIN xref %s", setString(sim.exclusiveValues()))
+			vsched.Log("FIN listeners %d %d", discov.VGlobalListeners(e2eEndpoints, e2eKey, false), discov.VGlobalListeners(e2eEndpoints, e2eExactKey, true))
+		}
 		names := make([]string, 0, len(resByName)+len(subByName))
 		for n := range resByName {
 			names = append(names, n)
@@ -400,6 +577,28 @@ func (sc e2eScenario) body() func() {
 	}
 }
 
+// extraMember: the rendered set/map got ("{a,b}" / "{k=v,k=v,}") has a member that want has not.
+func extraMember(got, want string) bool {
+	w := map[string]bool{}
+	for _, x := range strings.Split(strings.Trim(want, "{}"), ",") {
+		w[x] = true
+	}
+	for _, x := range strings.Split(strings.Trim(got, "{}"), ",") {
+		if x != "" && !w[x] {
+			return true
+		}
+	}
+	return false
+}
+
+func valuesOf(m map[string]string) []string {
+	s := map[string]bool{}
+	for _, v := range m {
+		s[v] = true
+	}
+	return setOf(s)
+}
+
 type e2eVerdict struct{ class, msg, sig string }
 
 // e2eCheck is the oracle over the execution's log.
@@ -414,29 +613,21 @@ func (sc e2eScenario) check(e *vsched.Exec) e2eVerdict {
 	default:
 		return e2eVerdict{"e2e:" + e.Outcome, e.Outcome + ": " + strings.Join(e.Blocked(), " "), e.Outcome}
 	}
+	pl := sc.plan()
 	var (
-		finalSet, finalKVs, reg string
-		lastChg                 = -1
-		expected                = map[string]bool{} // names that must be ready
-		ready                   = map[string]bool{}
-		vals                    = map[string]string{}
-		pubs                    = map[string][]int{} // cc -> log positions of its UpdateState records
-		obs                     = map[string][]int{}
-		payload                 = map[int]string{}
-		sig                     []string
+		finalSet, finalKVs, reg    string
+		exactKVs, exactSet, regEx  string
+		xSet                       string // exclusive reference (set at FIN by the body)
+		nListeners                 = "?"
+		lastChg                    = -1
+		ready                      = map[string]bool{}
+		closedAt                   = map[string]int{}
+		vals                       = map[string]string{}
+		pubs                       = map[string][]int{} // cc -> log positions of its UpdateState records
+		obs                        = map[string][]int{}
+		payload                    = map[int]string{}
+		sig                        []string
 	)
-	if sc.Pre == "build" {
-		expected["r0"] = true
-	}
-	if sc.Pre == "sub" {
-		expected["s0"] = true
-	}
-	if sc.Client == "build" {
-		expected["r1"] = true
-	}
-	if sc.Client == "sub" {
-		expected["s1"] = true
-	}
 	for i, l := range log {
 		f := strings.Fields(l)
 		switch f[0] {
@@ -452,6 +643,9 @@ func (sc e2eScenario) check(e *vsched.Exec) e2eVerdict {
 			sig = append(sig, f[1]+f[2])
 		case "RDY":
 			ready[f[1]] = true
+		case "CLOSED":
+			closedAt[f[1]] = i
+			sig = append(sig, "closed:"+f[1])
 		case "ERR":
 			return e2eVerdict{"e2e:error", "client action failed: " + l, "error"}
 		case "FIN":
@@ -460,38 +654,150 @@ func (sc e2eScenario) check(e *vsched.Exec) e2eVerdict {
 				finalKVs, finalSet = f[2], f[3]
 			case "reg":
 				reg = f[2]
+			case "exact":
+				exactKVs, exactSet, regEx = f[2], f[3], f[4]
+			case "xref":
+				xSet = f[2]
+			case "listeners":
+				nListeners = f[2] + "/" + f[3]
 			case "vals":
 				vals[f[2]] = f[3]
 			}
 		}
 	}
+	var after []string
+	for n, at := range closedAt {
+		k := 0
+		for _, i := range obs[n] {
+			if i > at {
+				k++
+			}
+		}
+		for _, i := range pubs[n] {
+			if i > at {
+				k++
+			}
+		}
+		if k > 0 {
+			after = append(after, fmt.Sprintf("after-close:%s=%d", n, k)) // coverage only: deliveries after Close returned
+		}
+	}
+	sort.Strings(after)
+	sig = append(sig, after...)
+	if nListeners != "?" {
+		sig = append(sig, "listeners:"+nListeners) // coverage only: a watcher without listeners left behind shows here
+	}
 	s := strings.Join(sig, " ")
 	if finalSet == "" {
 		return e2eVerdict{"e2e:harness", "no final record in the log", s}
 	}
-	for n := range expected {
+	for _, n := range pl.order {
 		if !ready[n] {
 			return e2eVerdict{"e2e:harness", "client " + n + " did not finish", s}
 		}
 	}
-	if reg != "{-}" && reg != finalKVs {
+	for n := range pl.closed {
+		if _, ok := closedAt[n]; !ok {
+			return e2eVerdict{"e2e:harness", "close of " + n + " did not return", s}
+		}
+	}
+	// Who is judged: every client that is still subscribed at the end. A closed subscriber is no
+	// longer "a subscriber" of the statement: nothing is demanded of it (the real code may still
+	// deliver a response it had in hand when Close returned).
+	var names []string // judged names: the ones that were there before a leaver left first, then re-subscribers, then the rest
+	role := map[string]string{}
+	hasClose := len(pl.closed) > 0
+	for pass := 0; pass < 3; pass++ {
+		var grp []string
+		for i, n := range pl.order {
+			if pl.closed[n] {
+				continue
+			}
+			r := "subscriber"
+			switch {
+			case hasClose && i < len(pl.pre):
+				r = "remaining-subscriber" // shares the watch with a client that leaves
+			case pl.joinedAfterClose[n]:
+				r = "resubscriber" // subscribes after the same thread closed a client of the key
+			case len(pl.pre) > 0 && i >= len(pl.pre):
+				r = "late-subscriber" // joined a key that already had a watcher (Registry.Monitor's "exists" path)
+			}
+			if pl.kindOf[n] == "xsub" {
+				r = "exclusive-" + r
+			}
+			if pl.kindOf[n] == "esub" {
+				r = "exact-match-" + r
+			}
+			rank := 2
+			if strings.HasSuffix(r, "remaining-subscriber") {
+				rank = 0
+			} else if strings.HasSuffix(r, "resubscriber") {
+				rank = 1
+			}
+			if rank == pass {
+				grp = append(grp, n)
+				role[n] = r
+			}
+		}
+		sort.Strings(grp)
+		names = append(names, grp...)
+	}
+	wantOf := func(n string) string {
+		switch pl.kindOf[n] {
+		case "esub":
+			return exactSet
+		case "xsub":
+			return xSet
+		}
+		return finalSet
+	}
+	prefixJudged, exactJudged := false, false
+	for _, n := range names {
+		if pl.kindOf[n] == "esub" {
+			exactJudged = true
+		} else {
+			prefixJudged = true
+		}
+	}
+	if len(sc.PreList) == 0 && len(sc.Acts) == 0 {
+		prefixJudged = reg != "{-}" // the older families: as before
+	}
+	if prefixJudged && reg == "{-}" {
+		return e2eVerdict{"e2e:watcher-lost", fmt.Sprintf("at quiescence the key has subscribers (%v) but the cluster has no watcher for it any more", names), s}
+	}
+	// the last subscriber of the key left (its watcher was dropped) and the key was subscribed
+	// again: divergences of the successor have their own cause keys, by what is wrong
+	dropped := len(pl.joinedAfterClose) > 0
+	for i, n := range pl.order {
+		if i < len(pl.pre) && !pl.closed[n] {
+			dropped = false
+		}
+	}
+	resubClass := func(got, want string) string {
+		if extraMember(got, want) {
+			return "e2e:resubscribe:stale-event-applied" // something is shown that is not registered (any more)
+		}
+		return "e2e:resubscribe:registered-value-missing"
+	}
+	if prefixJudged && reg != finalKVs {
+		if dropped {
+			return e2eVerdict{resubClass(reg, finalKVs), fmt.Sprintf("the key was subscribed again after its last subscriber had left; at quiescence the registry's copy %s != etcd %s", reg, finalKVs), s}
+		}
 		return e2eVerdict{"e2e:registry-copy-diverged", fmt.Sprintf("at quiescence the registry's copy %s != etcd %s", reg, finalKVs), s}
 	}
-	names := make([]string, 0, len(expected))
-	for n := range expected {
-		names = append(names, n)
+	if exactJudged && regEx != exactKVs {
+		return e2eVerdict{"e2e:registry-copy-diverged:exact-match", fmt.Sprintf("at quiescence the registry's copy %s of the exact-match watcher != etcd %s", regEx, exactKVs), s}
 	}
-	sort.Strings(names)
 	for _, n := range names {
-		if vals[n] != finalSet {
-			role := "subscriber"
-			if sc.Pre != "" && strings.HasSuffix(n, "1") {
-				role = "late-subscriber" // joined a prefix that already had a watcher (Registry.Monitor's "exists" path)
-			}
-			return e2eVerdict{"e2e:values-diverged:" + role, fmt.Sprintf("at quiescence Values() of %s = %s, registered values %s", n, vals[n], finalSet), s}
+		if vals[n] != wantOf(n) && dropped && strings.HasSuffix(role[n], "resubscriber") {
+			return e2eVerdict{resubClass(vals[n], wantOf(n)), fmt.Sprintf("the key was subscribed again after its last subscriber had left; at quiescence Values() of %s = %s, registered values %s", n, vals[n], wantOf(n)), s}
+		}
+		if vals[n] != wantOf(n) {
+			return e2eVerdict{"e2e:values-diverged:" + role[n], fmt.Sprintf("at quiescence Values() of %s = %s, registered values %s", n, vals[n], wantOf(n)), s}
 		}
 	}
 	for _, n := range names {
+		finalSet := wantOf(n)
 		if strings.HasPrefix(n, "s") {
 			o := obs[n]
 			if len(o) == 0 || payload[o[len(o)-1]] != finalSet {
@@ -644,6 +950,124 @@ func e2eScenarios(thorough bool) []e2eScenario {
 			}
 		}
 	}
+	// ---- leaver / option families (added for the missed seed C13-y1) ----
+	addX := func(sc e2eScenario) {
+		var acts []string
+		for _, seq := range sc.Acts {
+			acts = append(acts, strings.Join(seq, ">"))
+		}
+		sc.Name = fmt.Sprintf("pre=%s acts=%s init=%s etcd=%s", orDash(strings.Join(sc.PreList, "+")), orDash(strings.Join(acts, "|")), initName(sc.Init), orDash(pathString(sc.Etcd)))
+		out = append(out, sc)
+	}
+	nameAt := func(pre []string, i int) string { return fmt.Sprintf("%s%d", kindLetter(pre[i]), i) }
+	// family 6: one of 2-3 clients sharing a watch closes (Subscriber.Close / resolver.Close ->
+	// Registry.Unmonitor) while an event is delivered to the listeners of that watch
+	pres := [][]string{{"sub", "sub", "sub"}, {"build", "sub", "build"}, {"sub", "sub"}}
+	if thorough {
+		pres = [][]string{{"sub", "sub", "sub"}, {"build", "sub", "build"}, {"sub", "sub"}, {"build", "build", "build"}, {"sub", "build", "sub"},
+			{"build", "sub", "sub"}, {"sub", "sub", "build"}, {"build", "build"}, {"sub", "build"}, {"build", "sub"}}
+	}
+	for pi, pre := range pres {
+		for pos := range pre {
+			if !thorough && pi == 1 && pos != 0 {
+				continue
+			}
+			for ei, e1 := range events(inits[1]) {
+				if !thorough && (pi == 1 && ei > 0 || pi == 0 && pos > 0 && ei == 2) {
+					continue // quick: the mixed list with one event, a changed value only with the first listener leaving
+				}
+				pc := 0
+				if thorough && pi > 1 {
+					pc = 3 // the full bound (4) for the two lists of the quick tier, 3 for the other eight
+				}
+				addX(e2eScenario{Init: inits[1], PreList: pre, Acts: [][]string{{"close:" + nameAt(pre, pos)}}, Etcd: []Op{e1}, PCap: pc})
+			}
+		}
+	}
+	// family 7: the same while a lagging watch catches up in one response, is compacted (-> load ->
+	// handleChanges) or the connection comes back (cluster.reload -> load -> handleChanges)
+	pre3 := []string{"sub", "sub", "sub"}
+	lagScripts := [][]Op{
+		{{K: "stall"}, put(k2, "v2"), {K: "reconnect"}},
+		{{K: "stall"}, del(k1), {K: "compact"}, {K: "resume"}},
+	}
+	if thorough {
+		lagScripts = append(lagScripts,
+			[]Op{{K: "stall"}, put(k2, "v2"), del(k1), {K: "resume"}},
+			[]Op{{K: "stall"}, put(k2, "v2"), {K: "compact"}, {K: "reconnect"}})
+	}
+	for _, script := range lagScripts {
+		for pos := range pre3 {
+			if !thorough && pos != 0 {
+				continue
+			}
+			pc := 2
+			if thorough && pos == 0 {
+				pc = 3
+			}
+			addX(e2eScenario{Init: inits[1], PreList: pre3, Acts: [][]string{{"close:" + nameAt(pre3, pos)}}, Etcd: script, PCap: pc})
+		}
+	}
+	// family 8: the LAST subscriber of a key leaves (the watcher is dropped, its watch cancelled) and
+	// the key is subscribed again. Histories of one client thread (events issued by the same thread:
+	// sequential histories, still interleaved with the cluster's watch goroutines) and the same
+	// close/re-subscribe racing with events of the etcd thread.
+	seqs := [][]string{
+		{"close:s0", "sub"},
+		{"close:s0", "put:" + k2 + "=v2", "sub"},
+		{"put:" + k2 + "=v2", "close:s0", "del:" + k2, "sub"},
+		{"close:s0", "del:" + k1, "sub", "put:" + k1 + "=v2"},
+	}
+	// preemption bounds of this family: six to eight threads (two generations of watch goroutines and
+	// of the simulated client's watch closers); the known causes need P <= 1
+	seqP, conP := 2, 1
+	if thorough {
+		seqP, conP = 3, 2
+	}
+	for i, seq := range seqs {
+		pc := seqP
+		if i == 2 {
+			pc = seqP - 1 // five actions, seven threads
+		}
+		addX(e2eScenario{Init: inits[1], PreList: []string{"sub"}, Acts: [][]string{seq}, HonorCtx: true, PCap: pc})
+	}
+	// subscribe and close at once (before the watch goroutine has set its watch up), then subscribe again
+	addX(e2eScenario{Init: inits[1], Acts: [][]string{{"sub", "close:s1", "sub"}}, HonorCtx: true, PCap: seqP})
+	addX(e2eScenario{Init: inits[1], Acts: [][]string{{"build", "close:r1", "build", "put:" + k2 + "=v2"}}, HonorCtx: true, PCap: conP})
+	for _, e1 := range events(inits[1]) {
+		addX(e2eScenario{Init: inits[1], PreList: []string{"sub"}, Acts: [][]string{{"close:s0", "sub"}}, Etcd: []Op{e1}, HonorCtx: true, PCap: conP})
+	}
+	if thorough {
+		for ei, e1 := range events(inits[1]) {
+			addX(e2eScenario{Init: inits[1], PreList: []string{"build"}, Acts: [][]string{{"close:r0", "build"}}, Etcd: []Op{e1}, HonorCtx: true, PCap: 1})
+			pc := 1
+			if ei == 0 {
+				pc = conP
+			}
+			addX(e2eScenario{Init: inits[1], Acts: [][]string{{"sub", "close:s1", "sub"}}, Etcd: []Op{e1}, HonorCtx: true, PCap: pc})
+		}
+		addX(e2eScenario{Init: inits[1], PreList: []string{"sub"}, Acts: [][]string{{"close:s0", "sub"}}, Etcd: []Op{put(k2, "v2"), del(k2)}, HonorCtx: true, PCap: conP})
+	}
+	// family 9: the subscriber options of the public API (discov.Exclusive, discov.WithExactMatch)
+	// end to end; scripts in which the exclusive reference is exact (the subscriber is there from
+	// the start and sees every registration in order)
+	for _, script := range [][]Op{
+		{put(k2, "v1"), del(k2)}, // k2 takes v1 over, then leaves: the exclusive view loses v1, a plain one keeps it
+		{put(k2, "v1"), del(k1)},
+	} {
+		addX(e2eScenario{Init: inits[1], PreList: []string{"xsub", "sub"}, Etcd: script})
+	}
+	for _, script := range [][]Op{{put(k2, "v2"), put(k1, "v2")}, {del(k1), put(k2, "v2")}} {
+		pc := 2 // two watchers, two watch goroutines
+		if thorough {
+			pc = 3
+		}
+		addX(e2eScenario{Init: inits[1], PreList: []string{"esub", "sub"}, Etcd: script, PCap: pc})
+	}
+	if thorough {
+		addX(e2eScenario{Init: inits[1], PreList: []string{"sub"}, Acts: [][]string{{"esub"}}, Etcd: []Op{put(k1, "v2")}, PCap: 3})
+		addX(e2eScenario{Init: inits[1], PreList: []string{"esub"}, Acts: [][]string{{"close:s0", "esub"}}, Etcd: []Op{put(k1, "v2")}, HonorCtx: true, PCap: conP})
+	}
 	return out
 }
 
@@ -703,6 +1127,9 @@ func runE2EScenario(cfg *vlib.Config, r *vlib.Report, sc e2eScenario) {
 	p, t := e2eBounds(cfg.Thorough())
 	if sc.PCap > 0 && p > sc.PCap {
 		p = sc.PCap
+	}
+	if v := os.Getenv("VERIF_C13_P"); v != "" { // developer aid: measure a scenario at another bound
+		fmt.Sscan(v, &p)
 	}
 	sigs := map[string]int64{}
 	t0 := time.Now()
